@@ -2020,9 +2020,9 @@ func (interp *Interpreter) cfg(root *node, sc *scope, importPath, pkgName string
 					cur.tnext = an.start
 				}
 				if pn != nil {
-					// Chain channect init action to send data init action.
-					// (already done by wireChild, but let's be explicit).
-					an.tnext = pn
+					// Chain channel init action to send data init action,
+					// starting at the first operation of the data expression.
+					an.tnext = pn.start
 					cur = pn
 				}
 			}
